@@ -678,6 +678,12 @@ func MainC04(args []string) int {
 			eot := b - 2
 			last := blkPos[len(blkPos)-1]
 			ln := int(stream[last+1])
+			// a single byte where a block (or the end) must begin: NUL ("padding"), CR, LF, blank - sum, lengths and CRC still hold
+			for _, v := range []int{0, 13, 10, 32} {
+				for _, at := range append([]int{eot}, blkPos[:min(len(blkPos), 3)]...) {
+					add(&Fault{AltKind: "edit", InsAt: map[int][]int{at: {v}}}, "pad-at-boundary")
+				}
+			}
 			add(&Fault{AltKind: "edit", InsAt: map[int][]int{eot: {2, 0}}}, "stx-zero")
 			add(&Fault{AltKind: "edit", InsAt: map[int][]int{blkPos[0]: {2, 0}}}, "stx-zero")
 			if len(blkPos) > 1 {
